@@ -15,6 +15,7 @@ import Driver.C14
 import Driver.C09
 import Driver.C10
 import Driver.C11
+import Driver.C12
 open Ws.Driver
 
 def dispatch (op : String) (args : List String) (obs : String) : String × String :=
@@ -45,6 +46,12 @@ def dispatch (op : String) (args : List String) (obs : String) : String × Strin
   | "chdl" => c11chdl args obs
   | "dbgup" => c11dbgup args obs
   | "dbgdl" => c11dbgdl args obs
+  | "fw" => c12cw args obs
+  | "sr" => c12sr args obs
+  | "fl" => c12fl args obs
+  | "ind" => c12ind args obs
+  | "cf" => c12cf args obs
+  | "badc" => c12badc args obs
   | "neg" => c14neg args obs
   | "popt" => c14popt args obs
   | "msb" => c13msb args obs
